@@ -250,6 +250,12 @@ fn fspecs(thorough: bool) -> Vec<FSpec> {
             v.push(FSpec { kind: "attr-file", cfg: cfg.clone(), file: NOFILE, region, ck: "x01", flags: ATTR_FLAGS });
         }
     }
+    // ---- the archive-wide verifier while other threads of the process are inside the C API (appended last: indices stay put)
+    for cfg in crc_cfgs(thorough, &[1, 2]) {
+        for file in [1usize, 2] {
+            v.push(FSpec { kind: "concurrent-verify", cfg: cfg.clone(), file, region: "file_data", ck: "x01", flags: ARCHIVE_WIDE });
+        }
+    }
     v
 }
 
@@ -279,7 +285,11 @@ fn main() {
                     return;
                 }
             };
-            attr_case(c, sp, &b, stride, phase);
+            if sp.kind == "concurrent-verify" {
+                concurrent_case(c, sp, &b, phase);
+            } else {
+                attr_case(c, sp, &b, stride, phase);
+            }
             let _ = std::fs::remove_file(&path);
         });
     }
@@ -337,6 +347,119 @@ fn baseline(c: &mut Case, sp: &FSpec, b: &Built) -> bool {
             c.violate(format!("intact-fails|attributes|SFileVerifyFile|archive|{method}|{enc}|{s}{}", off_sfx(&sp.cfg)), format!("verifying the unmodified archive crashes: {s}"), json!({}));
             false
         }
+    }
+}
+
+/// A corrupted archive never verifies, whatever other threads of the process do with the C API meanwhile: one data byte of
+/// a file is altered (SFileVerifyArchive(ALL_FILES) answers false when it runs alone), then the same call is repeated while
+/// three threads stream another file in small reads, seek, and ask for the last error.
+fn concurrent_case(c: &mut Case, sp: &FSpec, b: &Built, phase: usize) {
+    let (method, enc) = (method_name(sp.cfg.method), sp.cfg.enc_name());
+    if !baseline(c, sp, b) {
+        return;
+    }
+    let users: Vec<&StoredFile> = b.user_files().map(|x| x.1).collect();
+    let f = users[sp.file];
+    let other = users[0].name.clone();
+    let fi = b.files.iter().position(|x| x.name == f.name);
+    let Some(r) = b.region("file_data", fi) else {
+        c.skip("no file_data region".to_string());
+        c.nontrivial = false;
+        return;
+    };
+    let (start, len) = r.ranges[0];
+    let at = start + (len / 2 + phase) % len.max(1);
+    let mut bytes = b.bytes.clone();
+    bytes[at] ^= 0x01;
+    let scratch = b.path.parent().unwrap().to_path_buf();
+    let p2 = scratch.join(format!("c10f-conc-{}.mpq", std::process::id()));
+    if std::fs::write(&p2, &bytes).is_err() {
+        c.inconclusive("cannot write the altered archive".to_string());
+        return;
+    }
+    let rounds = 400u32;
+    let v = isolated(&scratch, || {
+        match c_verify_archive(&p2, VERIFY_ALL_FILES) {
+            None => return Verdict::Detected("open-fails".into()),
+            Some(true) => return Verdict::Harmless,
+            Some(false) => {}
+        }
+        let p = CString::new(p2.to_string_lossy().as_bytes()).unwrap();
+        unsafe {
+            let mut h: HANDLE = ptr::null_mut();
+            if !SFileOpenArchive(p.as_ptr(), 0, 0, &mut h) {
+                return Verdict::Detected("open-fails".into());
+            }
+            let stop = std::sync::atomic::AtomicBool::new(false);
+            let ha = h as usize;
+            let mut wrong = 0u32;
+            let mut first_wrong = 0u32;
+            let streamed = std::sync::atomic::AtomicU64::new(0);
+            std::thread::scope(|sc| {
+                for t in 0..3usize {
+                    let (stop, streamed, other) = (&stop, &streamed, &other);
+                    sc.spawn(move || {
+                        let cn = CString::new(other.as_str()).unwrap();
+                        let mut fh: HANDLE = ptr::null_mut();
+                        if !SFileOpenFileEx(ha as HANDLE, cn.as_ptr(), 0, &mut fh) {
+                            return;
+                        }
+                        let mut buf = [0u8; 8];
+                        let mut got = 0u32;
+                        while !stop.load(std::sync::atomic::Ordering::Relaxed) {
+                            let ok = SFileReadFile(fh, buf.as_mut_ptr() as *mut _, 8, &mut got, ptr::null_mut());
+                            streamed.fetch_add(1, std::sync::atomic::Ordering::Relaxed);
+                            if !ok || got < 8 {
+                                SFileSetFilePointer(fh, 0, ptr::null_mut(), 0);
+                            }
+                            if t == 2 {
+                                let _ = SFileGetLastError();
+                                SFileSetLastError(0);
+                            }
+                        }
+                        SFileCloseFile(fh);
+                    });
+                }
+                for round in 0..rounds {
+                    if SFileVerifyArchive(ha as HANDLE, VERIFY_ALL_FILES) {
+                        if wrong == 0 {
+                            first_wrong = round;
+                        }
+                        wrong += 1;
+                    }
+                }
+                stop.store(true, std::sync::atomic::Ordering::Relaxed);
+            });
+            SFileCloseArchive(h);
+            let calls = streamed.load(std::sync::atomic::Ordering::Relaxed);
+            if wrong > 0 {
+                Verdict::Undetected(json!({"rounds": rounds, "answered_true": wrong, "first_in_round": first_wrong, "api_calls_of_other_threads": calls}))
+            } else {
+                Verdict::Detected(format!("all-rounds-false|{calls}"))
+            }
+        }
+    });
+    let _ = std::fs::remove_file(&p2);
+    match v {
+        Verdict::Detected(s) if s.starts_with("all-rounds-false") => {
+            c.count("concurrent_verify_rounds", rounds as u64);
+            c.count("concurrent_api_calls_of_other_threads", s.rsplit('|').next().and_then(|x| x.parse::<u64>().ok()).unwrap_or(0));
+        }
+        Verdict::Detected(_) => {
+            c.count("concurrent_setup_open_fails", 1);
+            c.nontrivial = false;
+        }
+        Verdict::Harmless => {
+            // the altered byte is not covered by anything this archive carries for that call: nothing to demand
+            c.count("concurrent_setup_not_detected_alone", 1);
+            c.nontrivial = false;
+        }
+        Verdict::Undetected(d) => c.violate(
+            format!("undetected|concurrent|SFileVerifyArchive(ALL_FILES)|other-threads-in-api|{method}|{enc}|{}", attr_name(sp.cfg.attr)),
+            format!("SFileVerifyArchive(ALL_FILES) answers false for the altered archive when it runs alone and true in some rounds while other threads read through the C API ({} {:?})", f.shape, f.name),
+            d,
+        ),
+        Verdict::Crash(s) => c.violate(format!("crash|concurrent|SFileVerifyArchive(ALL_FILES)|{s}"), format!("the process crashed: {s}"), json!({})),
     }
 }
 
